@@ -35,7 +35,9 @@ Definition with_quit s := {| s_pos := s_pos s; s_search := s_search s; s_log := 
 Definition with_killers s k := {| s_pos := s_pos s; s_search := s_search s; s_log := s_log s; s_quit := s_quit s; s_killers := k |}.
 
 Section Session.
-Variable order : killer_table -> list move -> Z -> pos -> list rmove -> list rmove.
+(* the search started by `go`: log interval, target depth, initial search state -> final search state.
+   Instantiated with SearchImp.iterate_i (for an ordering) in the theorems; the correspondence oracle uses a depth-1 stub. *)
+Variable run_search : Z -> nat -> sst -> result sst.
 
 (* doPosition: on success the killer table is cleared; a rejected FEN leaves everything as it was; a bad move text stops
    the replay where it is (precondition of UCI: move lists are legal, so this is outside the properties) *)
@@ -59,7 +61,7 @@ Definition do_go_cmd (s : sess) (e : env) (arg : string) : result (sess * list o
       | None => Ok (s1, [])
       | Some a =>
           do _ns <- allotted_ns (wturn p) a;
-          do stf <- iterate_i order (s_log s) (Z.to_nat (ga_depth a)) (sst0 p (s_killers s) (e_polls e) (e_clock e) (e_pvclock e));
+          do stf <- run_search (s_log s) (Z.to_nat (ga_depth a)) (sst0 p (s_killers s) (e_polls e) (e_clock e) (e_pvclock e));
           Ok (with_killers s1 (st_killers stf), [OSearch (rev (st_out stf))])
       end
   end.
@@ -119,7 +121,7 @@ End Session.
 (* main.go: for !Quit { if !scanner.Scan() { break }; ParseInputLine(scanner.Text()) } -- as a loop with explicit
    iteration count, so that "the loop ends" is a statement and not a consequence of structural recursion *)
 Inductive loop_end := Exited (s : sess) | StillRunning (s : sess) | Crashed (w : Z).
-Fixpoint main_loop (order : killer_table -> list move -> Z -> pos -> list rmove -> list rmove)
+Fixpoint main_loop (run_search : Z -> nat -> sst -> result sst)
                    (iterations : nat) (s : sess) (input : list (string * env)) : loop_end :=
   match iterations with
   | O => StillRunning s
@@ -127,8 +129,14 @@ Fixpoint main_loop (order : killer_table -> list move -> Z -> pos -> list rmove 
       if s_quit s then Exited s else
       match input with
       | [] => Exited s                                 (* Scan() = false: end of input *)
-      | (l, e) :: rest => match handle order s e l with
-                          | Ok (s', _) => main_loop order n s' rest
+      | (l, e) :: rest => match handle run_search s e l with
+                          | Ok (s', _) => main_loop run_search n s' rest
                           | Panic w => Crashed w end
       end
   end.
+
+(* the engine's own instantiation: iterative deepening under some ordering *)
+Definition engine_search (order : killer_table -> list move -> Z -> pos -> list rmove -> list rmove) : Z -> nat -> sst -> result sst :=
+  fun log depth st => iterate_i order log depth st.
+(* stub for the correspondence oracle: the depth-1 iteration only (enough to classify the answer: a move or none) *)
+Definition stub_search : Z -> nat -> sst -> result sst := fun log depth st => iterate_i plain_order log 1 st.
